@@ -33,7 +33,11 @@ def lens_constants(optic, w):
         if type(g).__name__ not in ("Plane", "StandardGeometry"):
             ztol += _f(g.tol) * (_f(sf.material_pre.n(w)) + _f(sf.material_post.n(w)))
     return {"ztol": ztol, "zi": _f(sg.positions[-1]), "xpl": _f(optic.paraxial.XPL()),
-            "nimg": _f(optic.image_surface.material_pre.n(w)),
+            # The image surface is an ordinary surface: its record holds the direction AFTER it, in its
+            # material_post (air unless the caller gave the image surface a medium).  That medium is the
+            # space in which the ray is continued back to the reference sphere.
+            "nimg": _f(optic.image_surface.material_post.n(w)),
+            "nimg_pre": _f(optic.image_surface.material_pre.n(w)),
             "nobj": _f(optic.object_surface.material_post.n(w)),
             "inf": bool(optic.object_surface.is_infinite)}
 
